@@ -134,6 +134,8 @@ impl Decoder for Socks5UdpCodec {
     type Error = anyhow::Error;
 
     fn decode(&mut self, src: &mut BytesMut) -> Result<Option<Self::Item>, Self::Error> {
+        // one datagram at a time: whatever is wrong with it, it is consumed, or the reader would see it again for ever
+        let mut src = src.split();
         if src.is_empty() {
             return Ok(None);
         }
@@ -144,11 +146,11 @@ impl Decoder for Socks5UdpCodec {
             bail!("Discarding fragmented payload");
         }
         src.advance(3);
-        let recipient = address::decode(src)?;
+        let recipient = address::decode(&mut src)?;
         if matches!(&recipient, crate::protocol::address::Address::Domain(host, _) if host.is_empty()) {
             bail!("Discarding payload for an empty host name");
         }
-        Ok(Some((src.split_off(0), recipient)))
+        Ok(Some((src, recipient)))
     }
 }
 
